@@ -147,6 +147,7 @@ def run_mutant(m: dict, repo: str = "/repo") -> dict:
         sites: Dict[str, set] = {}
         shape_sites: Dict[str, set] = {}
         drifts: Dict[str, list] = {}
+        site_keys: Dict[str, list] = {}
         for prop in m["props"]:
             for fn in report.RULES.rules.get(prop, []):
                 rr = report.RuleResult(fn.rule_id, fn.title, floor=fn.floor)
@@ -164,6 +165,7 @@ def run_mutant(m: dict, repo: str = "/repo") -> dict:
                         fired.setdefault(fn.rule_id, []).append(f"{f.func}: {f.construct}")
                         sites.setdefault(fn.rule_id, set()).add(f.site)
                         drifts.setdefault(f.site, []).append(f.drift)
+                        site_keys.setdefault(f"{fn.rule_id}|{f.site_key}", []).append([f.drift, f.func in report.CURRENT_DELETION_ONLY])
                 for sh, st in zip(rr.shapes, rr.shape_sites):
                     errors.append(f"{fn.rule_id}: shape {sh[:120]}")
                     shape_sites.setdefault(fn.rule_id, set()).add(st)
@@ -184,7 +186,7 @@ def run_mutant(m: dict, repo: str = "/repo") -> dict:
             if ok and m.get("names"):
                 ok = any(m["names"] in s for r in exp for s in fired.get(r, []))
         return {"id": m["id"], "status": "ok" if ok else "FAILED", "fired": fired, "errors": errors, "equivalent": equivalent,
-                "expect": expect, "sites": {k: sorted(v) for k, v in sites.items()}, "shape_sites": {k: sorted(v) for k, v in shape_sites.items()}, "drifts": drifts}
+                "expect": expect, "sites": {k: sorted(v) for k, v in sites.items()}, "shape_sites": {k: sorted(v) for k, v in shape_sites.items()}, "drifts": drifts, "site_keys": site_keys}
     finally:
         shutil.rmtree(tmp, ignore_errors=True)
 
